@@ -59,6 +59,11 @@ def eq_values(I, st, a, b):
     """Structural/pythonic ==  -> python bool or z3 Bool.  Objects with __eq__ are handled in compare()."""
     from .symex import FrozenList
 
+    if (isinstance(a, Opaque) and a.desc == "nan") or (isinstance(b, Opaque) and b.desc == "nan"):
+        # NaN is not equal to itself, but containers compare their items by identity first (`nan in [nan]` is True for
+        # the same object, False for another NaN object; numpy makes a new scalar object on every element access):
+        # `==` / `!=` on NaN itself are answered in compare(); inside containers the outcome depends on object identity
+        raise Unsupported("equality of values involving nan (depends on object identity)")
     if a is b:
         if not (is_z3(a)):
             return True
@@ -300,6 +305,12 @@ def compare(I, st, op, a, b):
     if nd(a) or nd(b):
         yield from npmodel.nd_compare(I, st, op, a, b)
         return
+    if npmodel.is_nan(a) or npmodel.is_nan(b):
+        # IEEE / CPython: every comparison with NaN is False - also nan == nan - and != is True
+        other = b if npmodel.is_nan(a) else a
+        if npmodel.is_nan(other) or is_number(other) or isinstance(other, Inf):
+            yield st, op == "NotEq"
+            return
     if op in ("Eq", "NotEq"):
         m = obj_has(I, st, a, "__eq__")
         if m is None and obj_has(I, st, b, "__eq__") is not None:
